@@ -117,7 +117,7 @@ where
             // https://html.spec.whatwg.org/multipage/parsing.html#the-before-html-insertion-mode
             InsertionMode::BeforeHtml => {
                 let anything_else = |token: Token| {
-                    self.create_root(vec![]);
+                    self.create_root(vec![], false);
                     ProcessResult::Reprocess(InsertionMode::BeforeHead, token)
                 };
 
@@ -130,7 +130,7 @@ where
 
                     Token::Characters(SplitStatus::Whitespace, _) => ProcessResult::Done,
                     Token::Tag(tag @ tag!(<html>)) => {
-                        self.create_root(tag.attrs);
+                        self.create_root(tag.attrs, tag.had_duplicate_attributes);
                         self.mode.set(InsertionMode::BeforeHead);
                         ProcessResult::Done
                     },
